@@ -13,6 +13,7 @@ pub mod c05;
 pub mod c07;
 pub mod c08;
 pub mod c09;
+pub mod c11;
 pub mod c12;
 pub mod scripted;
 
@@ -64,6 +65,7 @@ pub fn spec(id: &str) -> Option<Spec> {
     "C07" => Some(c07::spec()),
     "C08" => Some(c08::spec()),
     "C09" => Some(c09::spec()),
+    "C11" => Some(c11::spec()),
     "C12" => Some(c12::spec()),
     "C20" => Some(c20::spec()),
     "X01" => Some(e2smoke::spec()),
@@ -81,6 +83,7 @@ pub fn run(id: &str, tier: &str, ctx: &mut Ctx) -> Check {
     "C07" => c07::run(tier, ctx),
     "C08" => c08::run(tier, ctx),
     "C09" => c09::run(tier, ctx),
+    "C11" => c11::run(tier, ctx),
     "C12" => c12::run(tier, ctx),
     "C20" => c20::run(tier, ctx),
     "X01" => e2smoke::run(tier, ctx),
